@@ -471,6 +471,17 @@ func allFail(sets [][]Outcome) bool {
 	return true
 }
 
+func hasInstallIf(u []IndexD) bool {
+	for _, ix := range u {
+		for _, p := range ix.Pkgs {
+			if len(p.InstallIf) > 0 {
+				return true
+			}
+		}
+	}
+	return false
+}
+
 func historyStage(out string, seed uint64, tier string) error {
 	reps, nGen, nFresh := 12, 160, 12
 	if tier == "thorough" {
@@ -486,7 +497,11 @@ func historyStage(out string, seed uint64, tier string) error {
 	stat := map[string]int{}
 	multi := 0
 	for k, h := range hs {
-		so := runHistory(h, reps)
+		rr := reps
+		if k < nCorpus && rr < 30 {
+			rr = 30 // the finding replays are probabilistic: sample them well
+		}
+		so := runHistory(h, rr)
 		// fresh-process cross-check of the oracle (corpus + a sample)
 		if k < nCorpus || k%((nGen/nFresh)+1) == 0 {
 			for i, c := range h.Calls {
@@ -495,7 +510,9 @@ func historyStage(out string, seed uint64, tier string) error {
 					return err
 				}
 				stat["fresh_process_calls"]++
-				if len(so.Oracle[i]) == 1 && so.Oracle[i][0].key() != o.key() {
+				// (with install_if packages the outcome legitimately varies, C08-F1/F3: the
+				// fresh-process sample just joins the oracle set and Coq classifies it)
+				if !hasInstallIf(h.Universe) && len(so.Oracle[i]) == 1 && so.Oracle[i][0].key() != o.key() {
 					d, _ := json.Marshal(map[string]any{"history": h, "call": i, "reset_oracle": so.Oracle[i][0], "fresh_process": o})
 					fmt.Printf("IMPL-VIOLATION tag=fresh-process-differs-from-reset-caches %s\n", d)
 				}
